@@ -317,11 +317,21 @@ func c17Run(cs c17Case) []c17Fail {
 		}
 		return len(sentinels) == 2
 	})
-	for _, s := range sentinels {
-		if err := dm.Put(ctx, s, "sentinel:"+s); err != nil {
-			add("setup", "sentinel put: %v", err)
-			return fs
+	// The neighbours are written twice and a third neighbour is written and deleted, so that the
+	// tables of the partition contain superseded and deleted bytes (garbage) BEFORE the entry under
+	// test is stored: replication and above all table migration must cope with such tables.
+	for round := 0; round < 2; round++ {
+		for _, s := range sentinels {
+			if err := dm.Put(ctx, s, "sentinel:"+s); err != nil {
+				add("setup", "sentinel put: %v", err)
+				return fs
+			}
 		}
+	}
+	if len(sentinels) > 0 {
+		junk := cl.FindKey("j", func(k string) bool { return cl.PartID("d", k) == part })
+		_ = dm.Put(ctx, junk, "to-be-deleted")
+		_, _ = dm.Delete(ctx, junk)
 	}
 	putErr := dm.Put(ctx, key, val.Put)
 	sig := fmt.Sprintf("kind=%s/path=%s/stage=%s", cs.Kind, cs.Path, cs.Stage)
